@@ -14,7 +14,11 @@ RULE = ("cases = (variant plain/exp/time, family full/DTC/Cholesky-latent, kerne
         "non-trivial = posterior variance differs from the prior variance somewhere")
 PARTIAL = ["posterior covariance PSD / var >= 0 needs the kernel to be PSD: proved for expressions over ExpQuad / Linear leaves "
            "(cov_psd_of_psd_kernel + PSD.psdTree_psdOn), named hypothesis for Matern / Exponential / RatQuad leaves; checked "
-           "numerically here", "monotonicity under added inducing points: numeric check on nested sets"]
+           "numerically here",
+           "'of the order of the jitter at conditioning points' is proved as var(x_b) <= N_bb (= jitter for jitter-only "
+           "regularisation; var_at_conditioning_le); 'never increases when inducing points are added' is proved for "
+           "regularisers that agree on the common block (var_antitone_in_inducing); both also checked numerically "
+           "(nested sets, float64)"]
 ASSUMPTIONS = ["absolute tolerances c*eps*cond(regularised kernel)*prior variance, cond measured a posteriori"]
 CLAIM = {
     "text": "Lean theorems over R for the three families: covariance(X*) = K** - A^T A with L A = K_b* (the formula "
@@ -26,7 +30,7 @@ CLAIM = {
             "(diag and full) of the 9 classes with the model driver and by independent oracles (eigvalsh, refit with shifted "
             "values, nested inducing sets).",
     "note": "var >= 0 / PSD of the posterior covariance assumes a PSD kernel (proved for ExpQuad / Linear expressions; named "
-            "hypothesis for Matern / Exponential / RatQuad: Bochner is not in Mathlib). 'Never increases when inducing points are added' is checked numerically only.",
+            "hypothesis for Matern / Exponential / RatQuad: Bochner is not in Mathlib).",
     "technique": "Lean 4 proof (matrix algebra over the proved Cholesky/solve specs) + differential correspondence + "
                  "metamorphic oracles",
 }
